@@ -82,7 +82,10 @@ BASELINE_MISSED = {"C02-2": "C02 now sets stream trailers that share keys with t
  "C14r6-2": "flood: ≥ 3 MB of Sends after the handler has finished (and after a 5 s virtual pause) cannot all succeed",
  "C15r6-1": "handlers return their context's error wrapped with %w",
  "C17r6-2": "services without methods",
- "C19r6-3": "the recovery function returns a 2.5 KB message (a stack trace)"}
+ "C19r6-3": "the recovery function returns a 2.5 KB message (a stack trace)",
+ "C06r7-1": "JSON error bodies whose code is no Connect code name are not protocol-level errors (status decides); this also exposed that clampLengths had been corrupting unary Connect JSON bodies in the generator",
+ "C08r7-1": "reference servers may compress their final end-of-stream envelope / gRPC-Web trailer frame (refwire knob CompressEnd)",
+ "C11r7-1": "-Bin values in the padded base64 spelling"}
 rows = []
 for d in sorted(glob.glob(os.path.join(ROOT, "seeded", "C*-*"))):
     name = os.path.basename(d)
@@ -105,6 +108,8 @@ for d in sorted(glob.glob(os.path.join(ROOT, "seeded", "C*-*"))):
         note = "round 5: " + note
     if "r6-" in name:
         note = "round 6: " + note
+    if "r7-" in name:
+        note = "round 7: " + note
     rows.append("| %s | %s | %s | %s | %s | %s |" % (name, summ, needs, "yes" if valid else "NO", ", ".join(det) or "**not detected**", note))
 table = "| seeded | change | needs | confirmed (applies, suite passes, demo fails/passes) | detected by `./verif check <prop>` | history |\n|---|---|---|---|---|---|\n" + "\n".join(rows)
 p = os.path.join(ROOT, "DESIGN.md")
